@@ -321,7 +321,8 @@ def judge_same(ctx, case, resp):
 
 def setup(ctx):
     ctx.rule = ("alphabet: models A(ns1,a) B(ns1,'a - b') C(ns2,a) A2(ns1,a; other content) D(ns3,c) E(ns4,d; parses, does not build) F(ns3/,'a-b': "
-                "namespace and name differ from D's / B's only by a slash / by blanks); "
+                "namespace and name differ from D's / B's only by a slash / by blanks) G(a,ns2: its namespace is spelled like A's name, its name like C's "
+                "namespace; in the quick tier G joins the breadth-first enumeration to depth 4 only); "
                 "operations add/replace of each model, remove of each of the 16 namespace x name pairs and of an unknown pair, clear, "
                 "deploy (%d operations); after each one the response, the hook snapshot and evaluate(name, Who) for every name are "
                 "compared with a reference model written from the statement. bfs: every operation on every distinct observed state "
@@ -342,9 +343,13 @@ def setup(ctx):
     ctx.p_random = ctx.register(Part("random", gen_random, reqs_random, judge_random))
 
 
-def bfs(ctx, depth):
+LATE_TAGS = ("G",)      # models added to the alphabet later: in the quick tier they join the enumeration to a smaller depth (cost)
+OPS_CORE = [op for op in OPS if not (op[0] in ("add", "replace") and op[1] in LATE_TAGS) and not (op[0] == "remove" and (op[1], op[2]) in [WM.key_of(t) for t in LATE_TAGS])]
+
+
+def bfs(ctx, depth, OPS=OPS, tag=""):
     """Breadth first over observed states. Returns {state key: [shortest history, another history or None]}."""
-    ctx.enumerate(ctx.p_bfs, [{"ops": []}], name="bfs level 0", exhaustive=True)
+    ctx.enumerate(ctx.p_bfs, [{"ops": []}], name=tag + "bfs level 0", exhaustive=True)
     if ctx.stop():
         return {}
     root = _OBS[canon([])]
@@ -357,7 +362,7 @@ def bfs(ctx, depth):
             ctx.extra["bfs_state_space_complete_at_level"] = level - 1
             break
         cases = [{"ops": h + [op]} for h in frontier for op in OPS]
-        ctx.enumerate(ctx.p_bfs, cases, batch=100, name="bfs level %d (histories of length %d from every distinct state of level %d)" % (
+        ctx.enumerate(ctx.p_bfs, cases, batch=100, name=tag + "bfs level %d (histories of length %d from every distinct state of level %d)" % (
             level, level, level - 1), exhaustive=True)
         if ctx.stop():
             return states
@@ -371,12 +376,12 @@ def bfs(ctx, depth):
                 nxt.append(c["ops"])
             elif c["ops"] != states[k][0] and len(c["ops"]) < depth:
                 states[k][1] = c["ops"]
-        ctx.log("bfs level %d: %d histories, %d new states (total %d)" % (level, len(cases), len(nxt), len(states)))
-        ctx.extra["bfs_states_level_%d" % level] = len(nxt)
+        ctx.log("%sbfs level %d: %d histories, %d new states (total %d)" % (tag, level, len(cases), len(nxt), len(states)))
+        ctx.extra[tag + "bfs_states_level_%d" % level] = len(nxt)
         frontier = nxt
     if not frontier and "bfs_state_space_complete_at_level" not in ctx.extra:
         ctx.extra["bfs_state_space_complete_at_level"] = depth
-    ctx.extra["bfs_states"] = len(states)
+    ctx.extra[tag + "bfs_states"] = len(states)
     return states
 
 
@@ -385,7 +390,13 @@ def run(ctx):
     if ctx.w == 0:
         saved_W, ctx.W = ctx.W, 1
         try:
-            states = bfs(ctx, depth)
+            if ctx.thorough():
+                states = bfs(ctx, depth)
+            else:
+                # quick: the alphabet without the late models to depth 6, the whole alphabet to depth 4
+                states = bfs(ctx, depth, OPS_CORE, "core alphabet (%d operations): " % len(OPS_CORE))
+                if not ctx.stop():
+                    bfs(ctx, 4, OPS, "whole alphabet (%d operations): " % len(OPS))
             if not ctx.stop():
                 pairs = [(v[0], v[1]) for v in states.values() if v[1] is not None]
                 cases = [{"a": a, "b": b, "op": op} for a, b in pairs for op in OPS]
